@@ -3,7 +3,7 @@ CONSTANTS
   Systems <- MCSystems
   Comp <- MCCompX
   Rxns <- MCRxns
-  MaxOps = 3
+  MaxOps = 4
 VIEW View
 PROPERTY AlignedUnlessFailed
 PROPERTY FitUsesCurrent
